@@ -455,6 +455,18 @@ def guards():
     g("lstsq", lambda ns, x: ns.linalg.lstsq(x + 2 * onp.eye(3), onp.ones(3), rcond=None)[0], (3, 3))
     g("cond", lambda ns, x: ns.linalg.cond(x + 2 * onp.eye(3)), (3, 3))
     g("tensorinv-free matrix_rank", lambda ns, x: ns.linalg.matrix_rank(x) * ns.sum(x), (2, 2))
+    # spellings NumPy accepts that a rule may not: either spelling raises or it means what NumPy means
+    for u_ in ("l", "u", "L", "U"):
+        g(f"eigh UPLO={u_!r} values", (lambda q_: lambda ns, x: ns.linalg.eigh(x, UPLO=q_)[0])(u_), (3, 3))
+        g(f"eigh UPLO={u_!r} vectors", (lambda q_: lambda ns, x: ns.linalg.eigh(x, q_)[1] ** 2)(u_), (3, 3))
+        g(f"eigh UPLO={u_!r} fwd", (lambda q_: lambda ns, x: ns.linalg.eigh(x, UPLO=q_)[0])(u_), (3, 3), "fwd")
+    msk = onp.array([[True, False, True], [False, True, True]])
+    for r_ in ("sum", "mean", "prod", "var", "std"):
+        g(f"{r_} where=", (lambda q_: lambda ns, x: getattr(ns, q_)(x, where=msk))(r_), (2, 3))
+        g(f"{r_} where= axis fwd", (lambda q_: lambda ns, x: getattr(ns, q_)(x, axis=1, where=msk))(r_), (2, 3), "fwd")
+    g("max where= initial=", lambda ns, x: ns.max(x, where=msk, initial=-9.0), (2, 3))
+    g("min where= initial= fwd", lambda ns, x: ns.min(x, axis=0, where=msk, initial=9.0), (2, 3), "fwd")
+    g("sum method where=", lambda ns, x: (x * 1.0).sum(where=msk), (2, 3))
     g("hfft", lambda ns, x: ns.fft.hfft(x), (4,))
     g("fftfreq-scaled", lambda ns, x: ns.fft.fftshift(x * ns.fft.fftfreq(4)), (4,))
     return G
